@@ -105,11 +105,11 @@ MCSpec == MCInit /\ [][MCStep]_<<vars, act, hist, ghosts, lghosts>>
 View == <<Contents(pool), {pool.store[i] : i \in DOMAIN pool.store}, pool.tip, pool.hbf, pool.hbl, pool.st,
           blocks, head, final, owed, stale, misaligned, {e.tx : e \in ghosts}, {[tx |-> x.tx, block |-> x.block] : x \in lghosts}>>
 Emit == IF Len(hist) = HistLen + 1 THEN PrintT(<<"MBT", ToJson(hist)>>) ELSE TRUE
-(* TODO-KNOWN-FINDING C42-limbo-stale-block: witnesses of the strict retention property failing on *)
+(* KNOWN-FINDING (open, known_findings.json) C42-limbo-stale-block: witnesses of the strict retention property failing on *)
 (* the model; replayed on the real pool                                                             *)
 WitnessLimbo == LimboRetainsStrict \/ PrintT(<<"LIMBO", ToJson(hist)>>)
 NoLimboWitnessYet == LimboRetainsStrict
-(* TODO-KNOWN-FINDING C42-recheck-gap-after-overlap: witnesses of the strict contiguity property failing *)
+(* KNOWN-FINDING (open, known_findings.json) C42-recheck-gap-after-overlap: witnesses of the strict contiguity property failing *)
 WitnessGap == NonceContiguousStrict \/ PrintT(<<"NGAP", ToJson(hist)>>)
 NoGapWitnessYet == NonceContiguousStrict
 (* witnesses are searched among short behaviours only *)
